@@ -7,7 +7,8 @@ Import ListNotations.
 
 Inductive crash_kind :=
 | CValueError | CTypeError | CUnboundLocal | CAttributeError | CAssertion
-| CIndexError | CKeyError | CUnicodeError | CRecursion | COutOfFuel | CNotImplemented | CStructError.
+| CIndexError | CKeyError | CUnicodeError | CRecursion | COutOfFuel | CNotImplemented | CStructError
+| COSError | CLookupError.
 
 Inductive outcome (A E : Type) :=
 | Ok (a : A)
